@@ -363,7 +363,10 @@ pub fn build(
         };
 
         let mut add_functions = |functions: &[Function]| {
-            for function in functions.iter().filter(|f| f.is_public()) {
+            for function in functions
+                .iter()
+                .filter(|f| f.is_public() && !f.is_internal())
+            {
                 let mut function = function.clone();
                 let original_name = function.name.clone();
                 if associated_functions_used_names.contains(util::plain_ident(&original_name)) {
